@@ -106,6 +106,14 @@ def check_loop (repo, func, g, head, after, loop_stmt, env=None, nonempty_len=No
   paths = q.paths_under(repo, func.module, g, env, head, [head], func.cls, limit=limit)
   res = []
   test = loop_stmt.test if isinstance(loop_stmt, ast.While) else None
+  if test is not None and isinstance(test, ast.Constant):
+    # `while True:` - the loop is driven by the tests that guard its breaks
+    tests = []
+    for n in g.nodes:
+      if n.kind == 'break' and any(m is after for m, l in n.succ):
+        for t_, pol, b in g.guards(n):
+          if not isinstance(t_, (ast.For, ast.AsyncFor)) and g.dominates(head, b) and t_ not in tests: tests.append(t_)
+    if tests: test = tests[0] if len(tests) == 1 else ast.BoolOp(op=ast.And(), values=tests)
   drivers = q.names_in(test) if test is not None else set()
   for path, fe in paths:
     facts = path_facts(path)
